@@ -282,12 +282,12 @@ P("C14", "proof", "Lean 4 theorems (UTF-8 validity is preserved by every byte-le
   "run next to its byte twin (identical transcripts, every &str re-validated with from_utf8, catch_unwind), on "
   "strings with 2-, 3- and 4-byte characters next to every separator / dot / colon, plus mutation sequences; "
   "conversions between the families succeed iff valid. Model=code by differential testing.",
-  theorems=["TP.C14.api_exercised_utf8", "TP.Utf8.validB_iff", "TP.Utf8.Valid.append", "TP.Utf8.Valid.split_ascii", "TP.C14.prefix_split_valid",
+  theorems=["TP.SurfaceUtf8.impl_methods_utf8", "TP.C14.api_exercised_utf8", "TP.Utf8.validB_iff", "TP.Utf8.Valid.append", "TP.Utf8.Valid.split_ascii", "TP.C14.prefix_split_valid",
             "TP.C14.new_valid", "TP.C14.comps_bytes_valid", "TP.C14.remaining_valid", "TP.C14.parent_valid",
             "TP.C14.file_name_valid", "TP.C14.stem_ext_valid", "TP.C14.strip_prefix_valid", "TP.C14.push_valid",
             "TP.C14.push_checked_valid", "TP.C14.pop_valid", "TP.C14.set_file_name_valid", "TP.C14.set_extension_valid",
             "TP.C14.normalize_valid", "TP.C14.with_encoding_valid", "TP.C14.mutations_valid"],
-  modules=["TypedPathVerif.Lemmas.Utf8"],
+  modules=["TypedPathVerif.Props.SurfaceUtf8", "TypedPathVerif.Lemmas.Utf8"],
   rule="strings over {/ \\ . : a é 日 😀 ? C} + prefix seeds with non-ASCII payloads + random; non-trivial = multi-byte character and >= 2 components", design_ref="§5 C14")
 
 P("C15", "translation_validation", "whole-family method transcripts: typed / UTF-8 typed / platform / UTF-8 platform wrappers vs the wrapped concrete types, borrowed and owned, variant tag after every call + Lean theorems for the derive rule + model differential",
@@ -302,8 +302,9 @@ P("C15", "translation_validation", "whole-family method transcripts: typed / UTF
   TV_NOTE + "That each wrapper method delegates to the right concrete method is code shape, not logic: decided by the "
   "transcripts (implementation vs implementation), not by a theorem. Only the Unix host configuration of native/platform "
   "can be built here.",
-  theorems=["TP.C15.api_exercised_typed", "TP.C15.derive_iff", "TP.C15.derive_windows_of_prefix", "TP.C15.derive_disk",
+  theorems=["TP.SurfaceTyped.impl_methods_typed", "TP.C15.api_exercised_typed", "TP.C15.derive_iff", "TP.C15.derive_windows_of_prefix", "TP.C15.derive_disk",
             "TP.C15.derive_unix_of_prefix_free", "TP.C15.derive_stable"],
+  modules=["TypedPathVerif.Props.SurfaceTyped"],
   rule="small Windows and Unix domains + hostile names x 10 arguments x both variants x 6 type families; non-trivial = >= 2 components", design_ref="§5 C15")
 
 P("C16", "proof", "Lean 4 theorems (same-encoding clauses; Windows->Unix structure preservation for prefix-free paths) + model/code correspondence; other clauses by oracle (known finding K4)",
@@ -393,5 +394,6 @@ P("C20", "translation_validation", "two builds (std / no-default-features) vs on
   TV_NOTE + "The theorem is about the generated table (gen/sites.py, regex + a small cfg-predicate parser, is trusted); "
   "that an additive table implies identical semantics is an argument about Rust, not a Lean theorem — the two-build "
   "differential is what decides.",
-  theorems=["TP.C20.api_exercised_base", "TP.C20.cfg_additive", "TP.C20.no_runtime_feature_test", "TP.C20.cfg_sites_nonempty"],
+  theorems=["TP.SurfaceBase.impl_methods_base", "TP.C20.api_exercised_base", "TP.C20.cfg_additive", "TP.C20.no_runtime_feature_test", "TP.C20.cfg_sites_nonempty"],
+  modules=["TypedPathVerif.Props.SurfaceBase"],
   rule="every 17th (quick) / 3rd (thorough) op line of the other properties' quick domains; two builds", design_ref="§5 C20")
